@@ -290,23 +290,38 @@ def _sqlite(check: Check):
     if isinstance(x, ast.Constant) and isinstance(x.value, str) and 'CREATE TABLE' in x.value:
       create = x.value
   cols = re.findall(r'^\s*(\w+)\s+(?:BLOB|INTEGER|TEXT)', create, flags=re.M)
-  ret_names = []
+  ret_elts = []
   for _, rv in pff.returns():
     if isinstance(rv, ast.Tuple):
-      ret_names = [txt(e) for e in rv.elts]
-  ok_cols = cols == ['client_id', 'data', 'num_examples'] and ret_names == ['client_id', data_name, 'num_examples']
+      ret_elts = list(rv.elts)
+  p0 = pp.positional_params[0]
+  def from_input(e, idx):
+    return any(isinstance(x, ast.Subscript) and pff.param_of(x.value) == p0 and isinstance(x.slice, ast.Constant) and x.slice.value == idx
+               for x in pff.expand(e))
+  def is_count(e):
+    for x in pff.expand(e):
+      if isinstance(x, ast.Call) and wmean.repo_fn(pff, x) == 'fedjax.core.client_datasets:num_examples':
+        return x
+    return None
+  cnt_call = is_count(ret_elts[2]) if len(ret_elts) == 3 else None
+  ok_cols = (cols == ['client_id', 'data', 'num_examples'] and len(ret_elts) == 3 and from_input(ret_elts[0], 0) and
+             isinstance(ret_elts[1], ast.Name) and ret_elts[1].id == data_name and cnt_call is not None)
   ins = any(isinstance(x, ast.Constant) and isinstance(x.value, str) and re.search(r'INSERT INTO federated_data VALUES \(\?, \?, \?\)', x.value)
             for x in ast.walk(bld.method('add_many').node))
-  check.ob('R-SIB.sqlite', pp, f'CREATE TABLE {cols} / INSERT {ret_names}', ok_cols and ins,
+  check.ob('R-SIB.sqlite', pp, f'CREATE TABLE {cols} / INSERT (id, data, count)', ok_cols and ins,
            'the positional INSERT supplies (client_id, data, num_examples) in the table\'s column order')
-  # num_examples with validation; client id taken from position 0, examples from position 1
+  # num_examples with validation, of the same examples that are serialised
   okn = False
-  for ds in pff.rd.defs_at.values():
-    for dd in ds:
-      v = dd.value
-      if dd.name == 'num_examples' and isinstance(v, ast.Call) and wmean.repo_fn(pff, v) == 'fedjax.core.client_datasets:num_examples':
-        kw = {k.arg: txt(k.value) for k in v.keywords}
-        okn = kw.get('validate', 'True') == 'True' and isinstance(v.args[0], ast.Name) and v.args[0].id == 'examples'
+  if cnt_call is not None:
+    kw = {k.arg: txt(k.value) for k in cnt_call.keywords}
+    ex = cnt_call.args[0] if cnt_call.args else None
+    ser_arg = None
+    for ds in pff.rd.defs_at.values():
+      for dd in ds:
+        v = dd.value
+        if isinstance(v, ast.Call) and pff.ext(v.func) == 'zlib.compress' and v.args and isinstance(v.args[0], ast.Call) and v.args[0].args:
+          ser_arg = v.args[0].args[0]
+    okn = kw.get('validate', 'True') == 'True' and ex is not None and ser_arg is not None and txt(ex) == txt(ser_arg) and from_input(ex, 1)
   check.ob('R-SIB.sqlite', pp, 'num_examples(examples, validate=True)', okn,
            'the stored size is the validated row count of the same examples that are serialised')
   # readers select the columns they unpack
